@@ -1,2 +1,317 @@
-(* stub; replaced below *)
-From ZI Require Import Model.Bookkeeping.
+(* Property C09 — Registration bookkeeping reflects exactly the net effect of the history.
+   Only statements here; proofs are in Proofs/Bookkeeping.v.
+
+   Model: Model/Adapter.v (register / unregister / subscribe / unsubscribe / registered / subscribed /
+   allRegistrations / allSubscriptions / rebuild, _provided counting, extendors, uncached walkers) driven
+   by histories [brun W ops = fold_left (bstep W) ops empty_reg] (Model/Bookkeeping.v).
+   Spec: Spec/Bookkeeping.v (the ledger [aledger] / [sledger], unambiguous lookups).
+   The nested dictionaries are represented by the finite map they implement, so the pruning of emptied
+   containers has no counterpart here (DESIGN's prune_invisible holds by construction); the real pruning
+   is exercised by the correspondence (Tie/C09.v). *)
+From Coq Require Import List Arith Bool Permutation.
+Import ListNotations.
+From ZI Require Import Model.Ro Model.Adapter Model.Bookkeeping Spec.Bookkeeping Proofs.Bookkeeping.
+
+(* registered() answers the ledger: the last value registered for exactly that key and not since
+   unregistered.  [identity_ok]: two values mentioned by the history with the same identity are the same
+   value (an artefact of pairing an identity with an equality class; true of real objects). *)
+Theorem C09_registered_is_last : forall W ops, identity_ok (avalues ops) ->
+  forall req p n, registered (brun W ops) req p n = aledger ops (akey_of req p n).
+Proof. intros W ops ID req p n. apply (registered_is_last_lemma W ops ID). Qed.
+Print Assumptions C09_registered_is_last.
+
+(* the ledger really is "last write wins": after register(key, v) (v = None: a removal) and any
+   operations that do not write that key, the ledger holds v *)
+Theorem C09_ledger_last_write_wins : forall ops ops' req p n v,
+  forallb (fun o => negb (touches_a (akey_of req p n) o)) ops' = true ->
+  aledger (ops ++ BRegister req p n v :: ops') (akey_of req p n) = v.
+Proof. exact ledger_last_write_wins_lemma. Qed.
+Print Assumptions C09_ledger_last_write_wins.
+
+(* registering None is unregistering whatever is there *)
+Theorem C09_register_None_is_unregister : forall W r req p n,
+  register W r req p n None = unregister W r req p n None.
+Proof. reflexivity. Qed.
+Print Assumptions C09_register_None_is_unregister.
+
+(* unregister with a value removes the entry only if that very object is registered: any other value,
+   however equal (==), leaves the registry untouched (generation included) *)
+Theorem C09_unregister_value_identity : forall W ops req p n old v,
+  registered (brun W ops) req p n = Some old ->
+  (v_is old v = false -> unregister W (brun W ops) req p n (Some v) = brun W ops)
+  /\ (v_is old v = true -> registered (unregister W (brun W ops) req p n (Some v)) req p n = None).
+Proof.
+  intros W ops req p n old v R. unfold registered in *. split; intros V.
+  - unfold unregister. rewrite R, V. reflexivity.
+  - rewrite adapters_unregister; [|apply (inv_brun W ops)].
+    rewrite (eqb_refl akey_eqb akey_eqb_eq), R. cbn. rewrite V. reflexivity.
+Qed.
+Print Assumptions C09_unregister_value_identity.
+
+(* registering the object that is already registered changes nothing: same state, same generation
+   (so no cache is invalidated) — in ANY state *)
+Theorem C09_reregister_same_noop : forall W r req p n old v,
+  registered r req p n = Some old -> v_is old v = true -> register W r req p n (Some v) = r.
+Proof. intros W r req p n old v R V. unfold registered in R. unfold register. rewrite R, V. reflexivity. Qed.
+Print Assumptions C09_reregister_same_noop.
+
+(* allRegistrations() enumerates exactly the live registrations, each key once *)
+Theorem C09_allRegistrations_exact : forall W ops, identity_ok (avalues ops) ->
+  NoDup (map fst (allRegistrations (brun W ops)))
+  /\ forall k v, In (k, v) (allRegistrations (brun W ops)) <-> aledger ops k = Some v.
+Proof.
+  intros W ops ID. pose proof (inv_brun W ops) as [I _]. split; [apply I|].
+  intros k v. rewrite <- (registered_is_last_lemma W ops ID k). unfold allRegistrations. split.
+  - apply (In_aget akey_eqb akey_eqb_eq). apply I.
+  - apply (aget_Some_In akey_eqb akey_eqb_eq).
+Qed.
+Print Assumptions C09_allRegistrations_exact.
+
+(* allSubscriptions() enumerates exactly the live subscriptions: the keys with a non-empty ledger
+   entry, each once, every key followed by its subscribers in subscription order *)
+Theorem C09_allSubscriptions_exact : forall W ops, exists ks,
+  NoDup ks
+  /\ allSubscriptions (brun W ops) = flat_map (fun k => map (fun v => (k, v)) (sledger ops k)) ks
+  /\ forall k, In k ks <-> sledger ops k <> [].
+Proof.
+  intros W ops. pose proof (inv_brun W ops) as [I _].
+  exists (map fst (subscribers (brun W ops))). split; [apply I|]. split.
+  - unfold allSubscriptions.
+    assert (G : forall su, (forall k l, In (k, l) su -> sledger ops k = l) ->
+                flat_map (fun kv : skey * list value => map (fun v => (fst kv, v)) (snd kv)) su
+                = flat_map (fun k => map (fun v => (k, v)) (sledger ops k)) (map fst su)).
+    { induction su as [|[k l] su IH]; intros H; cbn; auto.
+      rewrite (H k l), IH; cbn; auto. intros k' l' H'. apply H; cbn; auto. }
+    apply G. intros k l H. rewrite <- (sub_leaf_is_ledger W ops k). unfold sub_leaf.
+    rewrite (In_aget skey_eqb skey_eqb_eq _ k l); auto. apply I.
+  - intros k. rewrite <- (sub_leaf_is_ledger W ops k). split.
+    + intros H. apply in_map_iff in H. destruct H as ([k' l] & <- & H). cbn.
+      unfold sub_leaf. rewrite (In_aget skey_eqb skey_eqb_eq _ k' l); [|apply I|auto].
+      eapply (inv_ne W _ I); eauto.
+    + intros H. apply (sub_leaf_aget (brun W ops)) in H.
+      apply (aget_Some_In skey_eqb skey_eqb_eq) in H. apply (in_map fst) in H. exact H.
+Qed.
+Print Assumptions C09_allSubscriptions_exact.
+
+(* subscribed() finds exactly the live subscribers (membership is by ==, as ``in`` does) *)
+Theorem C09_subscribed_exact : forall W ops req p v,
+  subscribed (brun W ops) req p v = existsb (fun x => v_eq x v) (sledger ops (skey_of req p)).
+Proof. intros W ops req p v. unfold subscribed. rewrite (sub_leaf_is_ledger W ops). reflexivity. Qed.
+Print Assumptions C09_subscribed_exact.
+
+(* the _provided reference count never falls below the number of live entries providing p
+   (it may exceed it after overwrites: Example drift below) *)
+Theorem C09_provided_count_ge_live : forall W ops p,
+  live_count (brun W ops) p <= cnt_get (provided_cnt (brun W ops)) p.
+Proof. intros W ops p. rewrite <- live_live_count. apply (inv_brun W ops). Qed.
+Print Assumptions C09_provided_count_ge_live.
+
+(* the extendors table lists under i exactly the provided interfaces with a positive count that
+   extend i; without duplicates when resolution orders have none *)
+Theorem C09_extendors_exact : forall W ops,
+  (forall i p, In p (ext_get (extendors (brun W ops)) i)
+               <-> (0 < cnt_get (provided_cnt (brun W ops)) p /\ In i (iro W p)))
+  /\ (world_ok W -> forall i, NoDup (ext_get (extendors (brun W ops)) i)).
+Proof.
+  intros W ops. split.
+  - apply (inv_brun W ops).
+  - intros WOK. apply (inv2_brun W WOK ops).
+Qed.
+Print Assumptions C09_extendors_exact.
+
+(* replaying allRegistrations() and allSubscriptions() of a reachable registry into a registry with
+   empty data structures — in ANY enumeration order that keeps each subscription key's subscribers in
+   order — yields the same adapters map and the same subscribers map, EXACT _provided counts
+   (= live registrations + subscription entries providing q) and an extendors table with the same
+   characterisation (hence the same interfaces per key wherever the source's count is not inflated) *)
+Theorem C09_replay_preserves : forall W ops r0 regs subs,
+  storage_empty r0 ->
+  Permutation regs (allRegistrations (brun W ops)) ->
+  Permutation subs (allSubscriptions (brun W ops)) ->
+  (forall k, map snd (filter (fun kv => skey_eqb (fst kv) k) subs) = sub_leaf (brun W ops) k) ->
+  let r' := replay_into W r0 regs subs in
+  (forall req p n, registered r' req p n = registered (brun W ops) req p n)
+  /\ (forall k, sub_leaf r' k = sub_leaf (brun W ops) k)
+  /\ NoDup (map fst (allRegistrations r'))
+  /\ (forall q, cnt_get (provided_cnt r') q = live_count (brun W ops) q)
+  /\ (forall i q, In q (ext_get (extendors r') i) <-> (0 < live_count (brun W ops) q /\ In i (iro W q))).
+Proof.
+  intros W ops r0 regs subs E PR PS PK r'.
+  destruct (replay_preserves_lemma W (brun W ops) r0 regs subs (inv_brun W ops) E PR PS PK) as (I & A & L & C).
+  split; [intros req p n; apply A|]. split; [exact L|]. split; [apply I|]. split; [exact C|].
+  intros i q. rewrite <- C. apply I.
+Qed.
+Print Assumptions C09_replay_preserves.
+
+(* rebuild() is such a replay into fresh structures: same maps, exact counts, the generation moves on *)
+Theorem C09_rebuild_preserves : forall W ops,
+  let r := brun W ops in
+  (forall req p n, registered (rebuild W r) req p n = registered r req p n)
+  /\ (forall k, sub_leaf (rebuild W r) k = sub_leaf r k)
+  /\ (forall req p v, subscribed (rebuild W r) req p v = subscribed r req p v)
+  /\ (forall q, cnt_get (provided_cnt (rebuild W r)) q = live_count r q)
+  /\ (forall i q, In q (ext_get (extendors (rebuild W r)) i) <-> (0 < live_count r q /\ In i (iro W q)))
+  /\ rebuild W r = replay_into W (fresh_reg (generation r)) (allRegistrations r) (allSubscriptions r).
+Proof.
+  intros W ops r.
+  destruct (rebuild_preserves_lemma W r (inv_brun W ops)) as (I & A & L & C).
+  split; [intros req p n; apply A|]. split; [exact L|].
+  split; [intros req p v; unfold subscribed; rewrite L; reflexivity|]. split; [exact C|].
+  split; [|reflexivity]. intros i q. rewrite <- C. apply I.
+Qed.
+Print Assumptions C09_rebuild_preserves.
+
+(* two resolution orders of pairwise map-equal registries (each satisfying the invariant of reachable
+   registries) answer every UNAMBIGUOUS lookup identically: unambiguous = under every required-key tuple
+   drawn from the resolution orders of the required specifications at most one provided interface
+   extending p carries an entry for the name (Spec.unamb_lookup) *)
+Theorem C09_unambiguous_lookup_coincides : forall W ro ro' required p n,
+  Forall2 (fun r r' => inv W r /\ inv W r'
+                       /\ (forall k, aget akey_eqb (adapters r') k = aget akey_eqb (adapters r) k)
+                       /\ unamb_lookup W (fun k => aget akey_eqb (adapters r) k) required p n) ro ro' ->
+  uncached_lookup W ro' required p n = uncached_lookup W ro required p n.
+Proof. exact unambiguous_lookup_coincides_lemma. Qed.
+Print Assumptions C09_unambiguous_lookup_coincides.
+
+Theorem C09_unambiguous_subscriptions_coincide : forall W ro ro' required p,
+  Forall2 (fun r r' => inv W r /\ nd r /\ inv W r' /\ nd r'
+                       /\ (forall k, sub_leaf r' k = sub_leaf r k)
+                       /\ match p with
+                          | Some p' => unamb_subs W (fun k => sub_leaf r k) required p'
+                          | None => True            (* handlers: never ambiguous *)
+                          end) ro ro' ->
+  uncached_subscriptions W ro' required p = uncached_subscriptions W ro required p.
+Proof. exact unambiguous_subscriptions_coincide_lemma. Qed.
+Print Assumptions C09_unambiguous_subscriptions_coincide.
+
+(* hence: after ANY history, rebuild() answers every unambiguous lookup / subscriptions query as before *)
+Theorem C09_rebuild_answers_unambiguous_lookups : forall W ops required,
+  identity_ok (avalues ops) ->
+  (forall p n, unamb_lookup W (aledger ops) required p n ->
+     uncached_lookup W [rebuild W (brun W ops)] required p n = uncached_lookup W [brun W ops] required p n)
+  /\ (world_ok W -> forall p,
+        match p with Some p' => unamb_subs W (sledger ops) required p' | None => True end ->
+        uncached_subscriptions W [rebuild W (brun W ops)] required p
+        = uncached_subscriptions W [brun W ops] required p).
+Proof. exact rebuild_answers_lemma. Qed.
+Print Assumptions C09_rebuild_answers_unambiguous_lookups.
+
+(* and so does a registry filled from the two listings, whatever the enumeration order *)
+Theorem C09_replay_answers_unambiguous_lookups : forall W ops r0 regs subs required,
+  identity_ok (avalues ops) -> storage_empty r0 ->
+  Permutation regs (allRegistrations (brun W ops)) -> Permutation subs (allSubscriptions (brun W ops)) ->
+  (forall k, map snd (filter (fun kv => skey_eqb (fst kv) k) subs) = sub_leaf (brun W ops) k) ->
+  (forall p n, unamb_lookup W (aledger ops) required p n ->
+     uncached_lookup W [replay_into W r0 regs subs] required p n = uncached_lookup W [brun W ops] required p n)
+  /\ (world_ok W -> forall p,
+        match p with Some p' => unamb_subs W (sledger ops) required p' | None => True end ->
+        uncached_subscriptions W [replay_into W r0 regs subs] required p
+        = uncached_subscriptions W [brun W ops] required p).
+Proof. exact replay_answers_lemma. Qed.
+Print Assumptions C09_replay_answers_unambiguous_lookups.
+
+(* ------------------------------------------------------------------ non-vacuity witnesses *)
+(* world: 0 = Interface; 1,2 required interfaces A,B; 3,4,5 provided interfaces P1,P2,P3 (all unrelated) *)
+Definition W0 : world :=
+  mkW (fun x => match x with 0 => [0] | 1 | 2 | 3 | 4 | 5 => [x; 0] | _ => [] end) (fun x => Nat.leb x 5).
+Definition v1 := mkV 1 1.
+Definition v2 := mkV 2 1.      (* equal (==) to v1 but a distinct object *)
+Definition v3 := mkV 3 3.
+
+Example ex_world_ok : world_ok W0.
+Proof.
+  intros x. do 6 (destruct x as [|x]; [cbn; repeat constructor; cbn; intuition congruence|]).
+  cbn. constructor.
+Qed.
+
+Ltac solve_identity_ok :=
+  let a := fresh in let b := fresh in let Ha := fresh in let Hb := fresh in let E := fresh in
+  intros a b Ha Hb E; cbn in Ha, Hb;
+  repeat (destruct Ha as [Ha|Ha]; [subst a|]); try contradiction;
+  repeat (destruct Hb as [Hb|Hb]; [subst b|]); try contradiction; try reflexivity; try discriminate E.
+
+(* overwrite, then unregister: nothing is registered and the ledger agrees, yet _provided still counts 1
+   (the drift) and P1 stays in the extendors; rebuild() makes the count exact again *)
+Definition h_over : list bop :=
+  [BRegister [Some 1] 3 0 (Some v1); BRegister [Some 1] 3 0 (Some v3); BUnregister [Some 1] 3 0 None].
+
+Example ex_overwrite_then_unregister :
+  identity_ok (avalues h_over)
+  /\ registered (brun W0 h_over) [Some 1] 3 0 = None
+  /\ aledger h_over (akey_of [Some 1] 3 0) = None
+  /\ allRegistrations (brun W0 h_over) = []
+  /\ live_count (brun W0 h_over) 3 = 0
+  /\ cnt_get (provided_cnt (brun W0 h_over)) 3 = 1
+  /\ ext_get (extendors (brun W0 h_over)) 0 = [3]
+  /\ cnt_get (provided_cnt (rebuild W0 (brun W0 h_over))) 3 = 0
+  /\ ext_get (extendors (rebuild W0 (brun W0 h_over))) 0 = [].
+Proof. split; [solve_identity_ok|]. repeat split; reflexivity. Qed.
+
+(* equal-but-distinct values: unregister(v2) does not remove v1, register(v2) does replace it (an equal
+   value is not "already registered"), register(v1) again is a no-op that keeps the generation *)
+Definition h_eq : list bop := [BRegister [Some 1] 3 0 (Some v1)].
+
+Example ex_equal_but_distinct :
+  v_eq v1 v2 = true /\ v_is v1 v2 = false
+  /\ unregister W0 (brun W0 h_eq) [Some 1] 3 0 (Some v2) = brun W0 h_eq
+  /\ registered (unregister W0 (brun W0 h_eq) [Some 1] 3 0 (Some v1)) [Some 1] 3 0 = None
+  /\ registered (register W0 (brun W0 h_eq) [Some 1] 3 0 (Some v2)) [Some 1] 3 0 = Some v2
+  /\ register W0 (brun W0 h_eq) [Some 1] 3 0 (Some v1) = brun W0 h_eq
+  /\ aledger (h_eq ++ [BUnregister [Some 1] 3 0 (Some v2)]) (akey_of [Some 1] 3 0) = Some v1
+  /\ aledger (h_eq ++ [BRegister [Some 1] 3 0 (Some v2)]) (akey_of [Some 1] 3 0) = Some v2.
+Proof. repeat split; reflexivity. Qed.
+
+(* subscriptions: unsubscribe(v2) removes every == entry (v1 and v2), subscribed() finds by == *)
+Definition h_sub : list bop :=
+  [BSubscribe [Some 1] (Some 3) v1; BSubscribe [Some 1] (Some 3) v3; BSubscribe [Some 1] (Some 3) v2;
+   BSubscribe [None] None v3; BUnsubscribe [Some 1] (Some 3) (Some v2)].
+
+Example ex_subscriptions :
+  sledger h_sub (skey_of [Some 1] (Some 3)) = [v3]
+  /\ allSubscriptions (brun W0 h_sub) = [(([1], Some 3), v3); (([0], None), v3)]
+  /\ subscribed (brun W0 h_sub) [Some 1] (Some 3) v1 = false
+  /\ subscribed (brun W0 h_sub) [Some 1] (Some 3) v3 = true
+  /\ cnt_get (provided_cnt (brun W0 h_sub)) 3 = 1.
+Proof. repeat split; reflexivity. Qed.
+
+(* why "unambiguous": the implementation enumerates nested dictionaries, i.e. here in the order
+   A-P1, A-P3, B-P2, B-P3 instead of the registration order A-P1, B-P2, A-P3, B-P3.  The replay
+   satisfies every hypothesis of C09_replay_preserves, both maps are preserved, but the AMBIGUOUS lookup
+   ([B], Interface, '') (P2 and P3 both apply under the key B) is answered differently, while the
+   unambiguous lookup ([B], P2, '') is not *)
+Definition h_amb : list bop :=
+  [BRegister [Some 1] 3 0 (Some (mkV 11 11)); BRegister [Some 2] 4 0 (Some (mkV 22 22));
+   BRegister [Some 1] 5 0 (Some (mkV 13 13)); BRegister [Some 2] 5 0 (Some (mkV 23 23));
+   BSubscribe [Some 2] (Some 4) v1; BSubscribe [Some 2] (Some 4) v2].
+Definition nested_order : list (akey * value) :=
+  [(([1], 3, 0), mkV 11 11); (([1], 5, 0), mkV 13 13); (([2], 4, 0), mkV 22 22); (([2], 5, 0), mkV 23 23)].
+Definition r_replayed : reg :=
+  replay_into W0 (fresh_reg 0) nested_order (allSubscriptions (brun W0 h_amb)).
+
+Lemma In4_iro e : In 4 (iro W0 e) -> e = 4.
+Proof.
+  do 6 (destruct e as [|e]; [cbn; intuition congruence|]). cbn. tauto.
+Qed.
+
+Example ex_ambiguous_lookup_may_differ :
+  identity_ok (avalues h_amb) /\ storage_empty (fresh_reg 0)
+  /\ Permutation nested_order (allRegistrations (brun W0 h_amb))
+  /\ (forall k, map snd (filter (fun kv => skey_eqb (fst kv) k) (allSubscriptions (brun W0 h_amb)))
+                = sub_leaf (brun W0 h_amb) k)
+  /\ uncached_lookup W0 [brun W0 h_amb] [2] 0 0 = Some (mkV 23 23)
+  /\ uncached_lookup W0 [r_replayed] [2] 0 0 = Some (mkV 22 22)
+  /\ unamb_lookup W0 (aledger h_amb) [2] 4 0
+  /\ uncached_lookup W0 [r_replayed] [2] 4 0 = Some (mkV 22 22)
+  /\ unamb_subs W0 (sledger h_amb) [2] 4
+  /\ uncached_subscriptions W0 [r_replayed] [2] (Some 4) = [v1; v2].
+Proof.
+  split; [solve_identity_ok|]. split; [repeat split|]. split.
+  { change (allRegistrations (brun W0 h_amb))
+      with [(([1], 3, 0), mkV 11 11); (([2], 4, 0), mkV 22 22); (([1], 5, 0), mkV 13 13); (([2], 5, 0), mkV 23 23)].
+    unfold nested_order. apply perm_skip, perm_swap. }
+  split; [intros k; apply proj_allsubs; apply (inv_brun W0 h_amb)|].
+  split; [reflexivity|]. split; [reflexivity|]. split.
+  { intros prefix e1 e2 _ H1 H2 _ _. apply In4_iro in H1. apply In4_iro in H2. congruence. }
+  split; [reflexivity|]. split; [|reflexivity].
+  intros prefix e1 e2 _ H1 H2 _ _. apply In4_iro in H1. apply In4_iro in H2. congruence.
+Qed.
